@@ -33,7 +33,8 @@ type Eng struct {
 	byName   map[string]*ssa.Function
 	callers  map[*ssa.Function][]CallSite
 
-	boxCache map[*ssa.Alloc][]ssa.Value
+	boxCache   map[*ssa.Alloc][]ssa.Value
+	reachCache map[[2]ssa.Instruction]bool
 
 	allSSA    map[*ssa.Function]bool
 	InlineLog []string               // helpers made transparent (functions absent from the reference tree)
